@@ -76,10 +76,10 @@ def run(ctx):
 
     # ------------------------------------------------------------------ (a) simple back-ends
     from radicale import pathutils, rights as rights_mod
-    users = list(dict.fromkeys(list(small_strings(["a", "b", "/"], ctx.n(3, 4))) + [".", "..", "a.", ".a"] + SPECIAL_USERS))
-    raw_paths = list(small_strings(ALPHA, ctx.n(4, 6))) + SPECIAL_PATHS
+    users = list(dict.fromkeys(list(small_strings(["a", "b", "/"] if ctx.quick else ALPHA, 3)) + [".", "..", "a.", ".a"] + SPECIAL_USERS))
+    raw_paths = list(small_strings(ALPHA, ctx.n(4, 5))) + SPECIAL_PATHS
     paths = list(dict.fromkeys(pathutils.sanitize_path(p) for p in raw_paths))
-    for _ in range(ctx.n(60, 2000)):
+    for _ in range(ctx.n(60, 400)):
         comps = [ctx.rng.choice(users[1:] + ["cal", "x.ics"]) for _ in range(ctx.rng.randint(0, 4))]
         paths.append(pathutils.sanitize_path("/" + "/".join(comps) + ctx.rng.choice(["", "/"])))
     paths = list(dict.fromkeys(paths))
@@ -162,7 +162,7 @@ def run(ctx):
     ctx.evaluations += n_ex
 
     # ------------------------------------------------------------------ (b) regex / escape / format
-    pairs = X.regex_cases(ctx.rng, ctx.n(20000, 200000))
+    pairs = X.regex_cases(ctx.rng, ctx.n(20000, 120000))
     exps = X.py_fullmatch_many(pairs)
     cases_b = [(ps, e) for ps, e in zip(pairs, exps) if e != "SKIP"]
     ctx.log("regex: %d pairs evaluated by Python" % len(cases_b))
@@ -199,7 +199,7 @@ def run(ctx):
     record(ctx, "format", cases_f, codes)
 
     # ------------------------------------------------------------------ (c) from_file
-    for tag, nfiles, optg in (("from_file", ctx.n(450, 12000), False), ("from_file_optgroup", ctx.n(60, 1500), True)):
+    for tag, nfiles, optg in (("from_file", ctx.n(450, 6000), False), ("from_file_optgroup", ctx.n(60, 600), True)):
         cases_c, kinds = [], collections.Counter()
         oracle_n = 0
         for i in range(nfiles):
